@@ -103,6 +103,10 @@ def tree_family(lv: Leaves) -> list:
     add("atan2(a/b, 2)", Node("Function", [ratio, 2], name="atan2"))
     add("atan2(a, 2)", Node("Function", [a, 2], name="atan2"))
     add("atan2(2, c)", Node("Function", [2, c], name="atan2"))
+    # arguments that agree in dimension are dimensional all the same
+    add("atan2(a, b)", Node("Function", [a, b], name="atan2"))
+    add("atan2(a, 2*b)", Node("Function", [a, Node("Mul", [2, b])], name="atan2"))
+    add("atan2(z, c)", Node("Function", [z, c], name="atan2"))
     add("free symbol", x)
     add("x*a", Node("Mul", [x, a]))
     add("a + x", Node("Add", [a, x]))
